@@ -478,3 +478,114 @@ Definition deep_copy_as (conv : bytes -> value -> value) (ss : list stmt) (inp :
   | None => Some None
   | Some inv => option_map Some (exec_stmts conv inv [] ss)
   end.
+
+(* ================================================================================================================
+   Specification vocabulary shared by the theorems and by the correspondence predicates (no generator logic here)
+   ================================================================================================================ *)
+
+Definition last_segment (p : bytes) : bytes :=
+  match last_index_of "/"%char p with
+  | Some i => skipn (S i) p
+  | None => p
+  end.
+
+
+Fixpoint resolve (imps : list (bytes * bytes)) (q : bytes) : option bytes :=
+  match imps with
+  | [] => None
+  | (p, n) :: r => if bytes_eqb n q then Some p else resolve r q
+  end.
+
+Fixpoint nodupb (l : list bytes) : bool :=
+  match l with
+  | [] => true
+  | x :: r => negb (existsb (bytes_eqb x) r) && nodupb r
+  end.
+
+(* the printed expression denotes the go/types type, foreign packages resolved through the file's import block *)
+Fixpoint denotes (imps : list (bytes * bytes)) (target : bytes) (o : oty) (t : ty) : bool :=
+  match o, t with
+  | OIdent n, TBasic n' => bytes_eqb n n'
+  | OIdent n, TAny => bytes_eqb n (bs "any")
+  | OIdent n, TError => bytes_eqb n (bs "error")
+  | OIdent n, TNamed p n' _ => bytes_eqb p target && bytes_eqb n n'
+  | OSel q n, TNamed p n' _ =>
+      negb (bytes_eqb p target) && bytes_eqb n n' && option_eqb bytes_eqb (resolve imps q) (Some p)
+  | OPtr a, TPtr b => denotes imps target a b
+  | OSlice a, TSlice b => denotes imps target a b
+  | OArray n a, TArray m b => N.eqb n m && denotes imps target a b
+  | OMap k a, TMap l b => denotes imps target k l && denotes imps target a b
+  | _, _ => false
+  end.
+
+
+(* every import of the file is used by some type expression (an unused import does not compile) *)
+Fixpoint oty_quals (o : oty) : list bytes :=
+  match o with
+  | OSel q _ => [q]
+  | OPtr e | OSlice e | OArray _ e => oty_quals e
+  | OMap k v => oty_quals k ++ oty_quals v
+  | _ => []
+  end.
+
+Definition stmt_quals (s : stmt) : list bytes :=
+  match s with SCopySlice _ t | SCopyMap _ t => oty_quals t | _ => [] end.
+
+
+(* ---- the known-finding class, as a predicate over the structured input ---- *)
+
+Fixpoint ty_pkgs (t : ty) : list bytes :=
+  match t with
+  | TNamed p _ _ => [p]
+  | TPtr e | TSlice e | TArray _ e => ty_pkgs e
+  | TMap k v => ty_pkgs k ++ ty_pkgs v
+  | _ => []
+  end.
+
+Definition is_container (t : ty) : bool := match t with TSlice _ | TMap _ _ => true | _ => false end.
+
+Definition own_rhs (ti : tinput) : option rhs :=
+  option_map snd (find (fun p => bytes_eqb (fst p) (ti_name ti)) (ti_group ti)).
+
+Definition own_origin (ti : tinput) : option tyname :=
+  match own_rhs ti with Some r => rhs_obj r | None => None end.
+
+Definition name_in (n : bytes) (l : list bytes) : bool := existsb (bytes_eqb n) l.
+
+Definition shadow_names_block : list bytes := [bs "in"; bs "out"; bs "i"; bs "o"].
+
+Definition shadow_type (target : bytes) (ti : tinput) : bool :=
+  ti_enabled ti &&
+  match ti_under ti, own_origin ti with
+  | Some fs, Some (opkg, _) =>
+      (negb (bytes_eqb opkg target) && bytes_eqb (last_segment opkg) (bs "in"))
+      || existsb (fun f =>
+           negb (omitted (ti_omit ti) (f_name f)) && is_container (f_ty f)
+           && existsb (fun p => negb (bytes_eqb p target) && name_in (last_segment p) shadow_names_block) (ty_pkgs (f_ty f)))
+         fs
+  | _, _ => false
+  end.
+
+Definition shadow_class (target : bytes) (tis : list tinput) : bool := existsb (shadow_type target) tis.
+
+
+(* ---- scoping of the rendered methods: the locals in scope where a type expression is rendered ---- *)
+
+Definition locals_as : list bytes := [bs "in"].                            (* out := new(@OriginType) *)
+Definition locals_block : list bytes := [bs "in"; bs "out"; bs "i"; bs "o"].   (* *o = make(@SliceType, len( *i)) *)
+
+Definition stmt_shadowed (s : stmt) : bool := existsb (fun q => name_in q locals_block) (stmt_quals s).
+
+Definition gtype_shadowed (g : gtype) : bool :=
+  existsb (fun q => name_in q locals_as) (oty_quals (g_origin g)) || existsb stmt_shadowed (g_stmts g).
+
+(* why a declaration must be reported as an error *)
+Definition decl_error (ti : tinput) : option errkind :=
+  match ti_under ti with
+  | None => Some EMustStruct
+  | Some _ => match own_origin ti with None => Some ENeedNamed | Some _ => None end
+  end.
+
+Definition errkind_eqb (a b : errkind) : bool :=
+  match a, b with EMustStruct, EMustStruct | ENeedNamed, ENeedNamed => true | _, _ => false end.
+
